@@ -223,14 +223,16 @@ def w_run(ctx, rng, idx):
     from pulser_simulation import QutipBackendV2, QutipConfig, QutipOperator
 
     n = rng.randint(1, 3)
-    reg = pulser.Register({f"q{i}": (i * gen.pick(rng, [6.0, 9.0, 40.0]), 0.0) for i in range(n)})
-    seq = pulser.Sequence(reg, pulser.MockDevice)
-    basis = gen.pick(rng, ["ground-rydberg", "ground-rydberg", "digital"])
+    modulated = rng.random() < 0.3
+    sp = gen.pick(rng, [6.0, 9.0] if modulated else [6.0, 9.0, 40.0])
+    reg = pulser.Register({f"q{i}": (i * sp, 0.0) for i in range(n)})
+    seq = pulser.Sequence(reg, pulser.AnalogDevice if modulated else pulser.MockDevice)
+    basis = "ground-rydberg" if modulated else gen.pick(rng, ["ground-rydberg", "ground-rydberg", "digital"])
     ch = {"ground-rydberg": "rydberg_global", "digital": "raman_global"}[basis]
     seq.declare_channel("ch", ch)
     for _ in range(rng.randint(1, 3)):
         D = gen.pick(rng, [40, 100, 116, 252])
-        seq.add(pulser.Pulse.ConstantPulse(D, round(rng.uniform(0.5, 6), 3), round(rng.uniform(-4, 4), 3),
+        seq.add(pulser.Pulse.ConstantPulse(D + (12 if modulated else 0), round(rng.uniform(0.5, 6), 3), round(rng.uniform(-4, 4), 3),
                                            round(rng.uniform(0, 6), 3)), "ch")
         if rng.random() < 0.3:
             seq.delay(gen.pick(rng, [16, 60]), "ch")
@@ -249,6 +251,8 @@ def w_run(ctx, rng, idx):
            DO.Occupation(tag_suffix="default_times")]
     ctx.case = {"run": {"n": n, "basis": basis, "noise": noise, "default_evaluation_times": defaults, "own": own, "own2": own2}}
     kw = {"noise_model": nm} if nm is not None else {}
+    if modulated:
+        kw["with_modulation"] = True
     with warnings.catch_warnings():
         warnings.simplefilter("ignore")
         try:
@@ -256,9 +260,22 @@ def w_run(ctx, rng, idx):
             be = QutipBackendV2(seq, config=cfg)
             res = be.run()
         except Exception as e:
+            if type(e).__name__ == "IntegratorException":
+                # QuTiP's ODE integrator gave up (nsteps): a numerical failure of the solver, no statement about observables
+                ctx.gray("solver-integrator-exception")
+                return
             ctx.violation("run-raises", f"QutipBackendV2 raised {type(e).__name__}: {str(e)[:200]}", f"run-raises:{type(e).__name__}")
             return
-    T = res.total_duration
+    # the emulated duration, from an independently built emulator (with modulation it exceeds the sequence duration)
+    from pulser_simulation import QutipEmulator
+    with warnings.catch_warnings():
+        warnings.simplefilter("ignore")
+        ref_emu = QutipEmulator.from_sequence(seq, with_modulation=modulated)
+    T = ref_emu.total_duration_ns
+    ctx.count("runs_with_modulation" if modulated else "runs_without_modulation")
+    if res.total_duration != T:
+        ctx.violation("total-duration", f"Results.total_duration = {res.total_duration}, emulated duration {T} "
+                      f"(sequence {seq.get_duration()} ns, modulation {modulated})", "results-total-duration")
     tol = 1.0 / T
     states = dict(zip([round(float(t), 9) for t in res.get_result_times(obs[0])], res.get_result(obs[0]) if False else res.state))
 
@@ -296,7 +313,7 @@ def w_run(ctx, rng, idx):
             st = np.asarray(S.to_qobj().full())
             st = st.ravel() if st.shape[1] == 1 else st
             rho = qm.as_rho(st)
-            H = np.asarray(be._sim_obj.get_hamiltonian(t * T, noiseless=True).full())
+            H = np.asarray(ref_emu.get_hamiltonian(t * T, noiseless=True).full())
             ctx.count("run_values_recomputed")
             e, e2 = qm.expect(rho, H).real, qm.expect(rho, H @ H).real
             ref = {"occupation": lambda: qm.occupation(rho, n, 2, one), "correlation_matrix": lambda: qm.correlation(rho, n, 2, one),
